@@ -107,6 +107,10 @@ impl<H: HashChain> HssPrivateKey<H> {
         let moved = core::mem::take(aux_data);
         *aux_data = &mut moved[..aux_len];
 
+        // A fresh buffer is only written to: clear whatever it holds, so that no leftover bytes
+        // can be mistaken for cached tree nodes
+        aux_data.fill(0);
+
         let aux_level = hss_optimal_aux_level(aux_len, *top_lms_parameter, None);
         hss_store_aux_marker(aux_data, aux_level);
 
